@@ -128,6 +128,9 @@ def run(ctx):
             if not other:
                 res.append(("must-raise", z3.Implies(Must, z3.BoolVal(raisedVE)), "lint:accepts-ill-formed", f"lint(fail_fast={fl[0]}, unloaded={fl[1]}, undriven={fl[2]}, single_input_gates={fl[3]}) accepted a circuit that violates a documented rule"))
                 res.append(("raise-justified", z3.Implies(z3.BoolVal(raisedVE), May), "lint:rejects-well-formed", f"lint{fl} raised ValueError ({out.ret}) although no documented rule is violated"))
+            g_ = c.graph
+            if getattr(g_, "is_symbolic", False):
+                res.append(("no-write", z3.BoolVal(not g_.wnode and not g_.wattr and not g_.wedge and not g_.created), "lint:writes-to-circuit", "lint modified the circuit it was called on"))
             return res
 
         st = e2.run(ctx, "lint", U, vars_, pre, registry, op, posts, split=(sb, k), detail={"case": cid, "flags": dict(zip(("fail_fast", "unloaded", "undriven", "single_input_gates"), fl)), "registry": reg})
